@@ -117,6 +117,9 @@ def aliases(no, choice):
     own = group(no, choice).name
     if no in RHOMB and choice != "rhombohedral":
         return [own, own + "h"]
+    if no in RHOMB and choice == "rhombohedral":
+        # the plain name selects this setting too when cell_choice='rhombohedral' is passed explicitly
+        return [own, group(no, "standard").name]
     return [own]
 
 
